@@ -98,7 +98,7 @@ def run(pid, tier, seed, replay=None):
     # 4. known findings -----------------------------------------------------------------
     kf_lines = []
     for f in ctx.known:
-        if not f.get("witness") and f.get("real_repro"):
+        if not f.get("witness") and f.get("real_repro") and not f.get("part"):
             # a finding none of this check's engines reaches (nested executors, warnings turned into errors, ...): it
             # is identified by its real-process script, which the thorough tier runs against /repo
             script = os.path.join(C.ROOT, str(f["real_repro"]).split(":")[0].split(" ")[0])
